@@ -306,7 +306,7 @@ func main() {
 		case "skip":
 			c = genSkipPath(r)
 		default:
-			c = genRandom(r, 80)
+			c = genRandom(r, 80, f[0] == "hostile")
 		}
 		out := execCase(c)
 		fmt.Print(describe(c, out))
@@ -327,8 +327,9 @@ func main() {
 				emit(genSplitLocks(r))
 				emit(genCommitNoBlock(r))
 				emit(genSkipPath(r))
-				emit(genRandom(r, 60))
-				emit(genRandom(r, 160))
+				emit(genRandom(r, 60, false))
+				emit(genRandom(r, 160, false))
+				emit(genRandom(r, 60, true))
 			}
 		},
 		Exec:   execCase,
@@ -341,9 +342,16 @@ func main() {
 			}
 			return false
 		},
-		Rule:        "n real consensus.State nodes, adversarial prefix then synchronous suffix; non-trivial = reached the synchrony point; distinct by hash of the op list",
-		Assumptions: []string{},
-		Parallel:    8,
+		Rule: "n real consensus.State nodes in one process (one per correct validator; kvstore app, MockPV signer, in-memory stores, nil WAL, recording ticker with the durations the node asked for; 3..7 validators from 7 power configurations plus skewed validator sets reached through validator updates; faulty validators with < 1/3 of the power, possibly none), driven synchronously through handleMsg/handleTimeout. Every case = adversarial asynchronous prefix, the synchrony point, a synchronous suffix (closure = every logged message and every majority claim to every correct node until nothing changes; then one eligible timeout — net closed, no other timer due more than skew earlier — or a move of a faulty validator; repeat). Prefixes: random (partitions re-drawn, per-message delays and re-deliveries, timeouts at any time, faulty validators equivocating in votes and proposals, voting for future rounds, withholding, bogus majority claims) and scripted: two correct nodes locked on different blocks from different rounds; a node that sees the commit (+2/3 precommits) without the block, optionally pulled out of the commit step by +2/3 prevotes of the next round; most of the power walking through rounds by timeouts while one node is cut off and then skips them at once (skewed sets). Non-trivial = the case reached the synchrony point; distinct by hash of the op list",
+		Assumptions: []string{
+			"one height; a block id stands for (hash, part-set header) of a one-part block; block i is what createProposalBlock of validator i yields (checked at node construction); signatures ideal: correct nodes' messages are the objects they really signed, faulty validators' messages are signed by the harness with their keys",
+			"idealised gossip as in the property's quantifier: closure hands every logged message (proposals, block parts, votes of all rounds) and every +2/3 majority claim of every correct node to every correct node, repeatedly until no node changes; votes arrive from the peer of their signer (2 catch-up rounds per peer apply)",
+			"wall-clock timeouts are replaced by virtual time: a timer armed at time t with the duration the real node computed (config.Propose/Prevote/Precommit(round), default config) expires at t+duration; message delivery takes no time; in the synchronous suffix a timer may fire only when the net is closed and no other pending timer expires more than skew (< 1000 ms, the smallest timeout) earlier; the NewHeight timeout counts as 0",
+			"clocks-not-behind is a hypothesis of the property (block time validity belongs to C06); create_empty_blocks on",
+			"the oracle's bound: every correct node decides at the latest in the first round after the highest round reached at the first closure whose proposer (real rotation table) is correct and, if correct nodes are locked, is one of them; fairness of the rotation itself is not derived",
+			"own messages are processed in FIFO order right after the input that caused them (the 1000-slot internal queue never overflows)",
+		},
+		Parallel: 8,
 		Extra: func() map[string]interface{} {
 			statMtx.Lock()
 			defer statMtx.Unlock()
